@@ -387,7 +387,7 @@ func (s *Store) lookupSecretInternal(ctx context.Context, name string) (Secret, 
 		defer cancel()
 	}
 	for {
-		v, err, _ := s.single.Do("lookup:"+name, func() (any, error) {
+		ch := s.single.DoChan("lookup:"+name, func() (any, error) {
 			sv, err := s.client.Get(ctx, name)
 			if err != nil {
 				return nil, fmt.Errorf("lookup %q: %w", name, err)
@@ -402,6 +402,18 @@ func (s *Store) lookupSecretInternal(ctx context.Context, name string) (Secret, 
 			s.logf("[store] added new undeclared secret %q", name)
 			return s.secretLocked(name), nil
 		})
+
+		// Wait for the shared request, but no longer than our own context allows:
+		// the request in flight is governed by the context of whoever started it,
+		// which may outlive ours.
+		var v any
+		var err error
+		select {
+		case <-ctx.Done():
+			return nil, fmt.Errorf("lookup %q: %w", name, ctx.Err())
+		case res := <-ch:
+			v, err = res.Val, res.Err
+		}
 		if err == nil {
 			return v.(Secret), nil
 		} else if errors.Is(err, context.DeadlineExceeded) || errors.Is(err, context.Canceled) {
